@@ -74,9 +74,12 @@ def callsite_assertions(X, ins, key, argv, argops):
             if any(X.block in l['body'] for l in X.cfg['loops'].values()):
                 continue
         elif inloop is not None:
-            lp_ = [l for l in X.cfg['loops'].values() if l['ordinal'] == inloop]
-            if not lp_ or X.block not in lp_[0]['body']:
+            lp_ = [(h_, l) for h_, l in X.cfg['loops'].items() if l['ordinal'] == inloop]
+            # a site belongs to loop k when it is in its body, or - for code that leaves the loop from inside an
+            # iteration (an error return) - when a body block other than the head dominates it
+            if not lp_ or not (X.block in lp_[0][1]['body'] or any(x_ != lp_[0][0] and x_ in X.cfg['dom'][X.block] for x_ in lp_[0][1]['body'])):
                 continue
+            lp_ = [lp_[0][1]]
             if only_ and any(X.block in l['body'] and len(l['body']) < len(lp_[0]['body']) for l in X.cfg['loops'].values()):
                 continue
         shown_ = ckey if inloop is None else ('%s@L%d%s' % (ckey, inloop, '!' if only_ else '') if headloop is None else '%s@L%d^%d' % (ckey, inloop, headloop))
@@ -89,7 +92,8 @@ def callsite_assertions(X, ins, key, argv, argops):
         # inside a loop: atHead(e) / lold(e) refer to the innermost (or the named) enclosing loop's current iteration
         best_ = None
         for h_, l_ in X.cfg['loops'].items():
-            if X.block in l_['body'] and h_ in getattr(X, 'loopstate', {}) and hasattr(X.loopstate[h_], 'head_heap'):
+            inl_ = X.block in l_['body'] or (inloop is not None and any(x_ != h_ and x_ in X.cfg['dom'][X.block] for x_ in l_['body']))
+            if inl_ and h_ in getattr(X, 'loopstate', {}) and hasattr(X.loopstate[h_], 'head_heap'):
                 if inloop is not None and l_['ordinal'] != (inloop if headloop is None else headloop):
                     continue
                 if best_ is None or len(l_['body']) < len(X.cfg['loops'][best_]['body']):
